@@ -23,11 +23,13 @@ StreamAbsent(r) == \E s \in DOMAIN r.streams : \E i \in DOMAIN r.streams[s] : \E
 D == T.decl
 IsMarker(e, m) == e[1] = "call" /\ e[2] = m
 MarkerIdx(log, m) == LET I == {i \in DOMAIN log : IsMarker(log[i], m)} IN IF I = {} THEN 0 ELSE CHOOSE i \in I : \A j \in I : i <= j
+ByTag(r) == D.tag # "" /\ \E i \in DOMAIN r.sels : r.sels[i].focus \in {"$v:@" \o D.tag, "*:@" \o D.tag}
 Instr(r) == r.mode \in {"tooled", "inplace", "tweak", "tweak2", "tweak_cond", "ovprobe", "total"}
+            \/ (r.mode \in {"catprobe", "catplain"} /\ ByTag(r))
             \/ (r.mode = "probe" /\ \E i \in DOMAIN r.sels : r.sels[i].focus \in {D.var, "$x"}
                                                             \/ \E j \in DOMAIN r.sels[i].ctx : r.sels[i].ctx[j] = D.var)
-SupplyIdx(r) == {i \in DOMAIN r.sels : r.sels[i].focus = D.var}
-Supplied(r) == r.mode \in {"tweak", "tweak2", "ovprobe"} /\ SupplyIdx(r) # {}
+SupplyIdx(r) == {i \in DOMAIN r.sels : r.sels[i].focus = D.var \/ (D.tag # "" /\ r.sels[i].focus = "$v:@" \o D.tag)}
+Supplied(r) == r.mode \in {"tweak", "tweak2", "ovprobe", "catprobe"} /\ SupplyIdx(r) # {}
 SupplyVal(r) == r.supply + (CHOOSE i \in SupplyIdx(r) : TRUE) - 1
 F(run, clause, a, b) == [run |-> run, clause |-> clause, a |-> a, b |-> b]
 NextMarker == IF D.marker = "901" THEN "902" ELSE "903"
@@ -67,7 +69,7 @@ CheckRun(r, k) ==
               ELSE IF Instr(r)
               THEN (IF ~passed THEN <<>> ELSE << F(k, "FailsThere", "continued-past-declaration", r.mode) >>) \o
                    (IF passed \/ D.catches \/ (r.result[1] = "raise" /\ Len(r.result) >= 6 /\ r.result[3] = "NameError:PteraNameError"
-                                               /\ r.result[4] = D.var /\ r.result[5] = "body" /\ r.result[6] # "info-failed")
+                                               /\ r.result[4] = D.var /\ r.result[5] = "body" /\ r.result[6] = D.ann)
                     THEN <<>> ELSE << F(k, "FailsThere", "wrong-error", r.result[Len(r.result)]) >>)
               ELSE <<>>)
 Init == tid \in 1..Len(Traces) /\ ri = 0 /\ fails = <<>> /\ TLCSet(tid, <<0, <<>>>>)
